@@ -41,6 +41,8 @@ def must_see(tier):
             m['%s:%s' % (impl, f)] = 10
         m[impl + ':ghost-operands'] = 20
         m[impl + ':operand:single-child-root'] = 5
+    m['c:unhashable-key-case'] = 20
+    m['py:unhashable-key-case'] = 20
         m[impl + ':operand:height>=3'] = 20
     return m
 
@@ -92,10 +94,12 @@ def run_shard(spec, rec):
         impl = 'c' if i % 2 == 0 else 'py'
         if i % 40 == 0:
             uni = fam.key_universe(rng, n=rng.choice([8, 14, 22]))
-            if fam.kc == 'O':
-                # plain iterables are sorted with list.sort(): keep None out
-                # of them (F26), but allow it in containers
-                pass
+            if fam.kc == 'O' and rng.random() < .2:
+                # keys that can be ordered but not hashed (while the
+                # operation runs): nothing in a set operation may hash them
+                uni = [families.HKey(j) for j in range(
+                    -6, rng.choice([3, 9, 16]))]
+                rec.ev('unhashable-key-universes')
         run_case(fam, impl, rng, rec, uni, vals, i)
 
 
@@ -166,6 +170,8 @@ def apply_form(fam, impl, form, a, b):
 
 
 def run_case(fam, impl, rng, rec, uni, vals, i):
+    if uni and isinstance(uni[0], families.HKey):
+        rec.ev(impl + ':unhashable-key-case')
     form = rng.choice(FORMS)
     desc = dict(family=fam.name, impl=impl, form=form)
     # node sizes are class-global: one setting per case, made before any
@@ -225,7 +231,11 @@ def run_case(fam, impl, rng, rec, uni, vals, i):
                 ('BTree', 'TreeSet', 'Bucket', 'Set'))], rec, impl + ':')
         desc['ghost_operands'] = ng
     try:
-        r = apply_form(fam, impl, form, a, b)
+        families.HASH_REFUSED[0] = True
+        try:
+            r = apply_form(fam, impl, form, a, b)
+        finally:
+            families.HASH_REFUSED[0] = False
     except Exception as e:
         d = dict(desc, left=kinda, right=kindb, a=brief(ka, 200),
                  b=brief(kb, 200), detail='%s: %s' % (type(e).__name__, e))
@@ -237,6 +247,12 @@ def run_case(fam, impl, rng, rec, uni, vals, i):
             if isinstance(e, TypeError) and mixed and None in kk and \
                     any(k is not None for k in kk):
                 d['finding'] = 'F26'
+        # F43: the C '^' goes through Python sets: it hashes the keys
+        if impl == 'c' and form == 'op:^' and isinstance(
+                e, (TypeError, SystemError)) and any(
+                    isinstance(k, families.HKey) for k in list(ka) + list(kb)):
+            d['finding'] = 'F43'
+            d['unhashable_keys'] = True
         rec.violation('set-operation-raised', **d)
         return
     rec.evaluations += 1
